@@ -8,7 +8,7 @@ from ..runner import Leg, Res, libcall
 PROPERTY = 'C15'
 NEED_C = True
 RULE = ('(a) 2..8 series, one case in 8 with 9..18 (lattice values, duplicates -> ties) with dtw.distance_matrix / distance_matrix_fast as dists_fun; '
-        '(b) a synthetic dists_fun returning generated upper-triangular matrices (ties, duplicates, inf entries). max_dist in '
+        '(b) a synthetic dists_fun returning generated upper-triangular matrices (ties, duplicates, inf entries, near-ties that agree to 5-6 digits, matrices whose entries are all below 1e-8). max_dist in '
         '{inf, constructed between entries}; hooks {none, weight hook, order hook, recording merge hook}; models '
         'Hierarchical, HierarchicalTree, LinkageTree (single/complete/average); histories: fit on data A, on B, on A again '
         'with one model object must equal fresh models. Oracle: clusters partition range(n), each keyed by a member; '
@@ -25,8 +25,19 @@ inf = float('inf')
 
 @st.composite
 def _matrix(draw, n, allow_inf=True):
-    vals = st.sampled_from([0.0, 0.25, 0.5, 1.0, 1.5, 2.0, 3.0, 4.5]) if draw(st.booleans()) else \
-        st.floats(0.0, 100.0, allow_nan=False)
+    mode = draw(st.sampled_from(['lattice', 'lattice', 'float', 'float', 'near-tie', 'tiny']))
+    if mode == 'lattice':
+        vals = st.sampled_from([0.0, 0.25, 0.5, 1.0, 1.5, 2.0, 3.0, 4.5])
+    elif mode == 'float':
+        vals = st.floats(0.0, 100.0, allow_nan=False)
+    elif mode == 'near-tie':
+        # entries that agree to five or six digits without being equal: "the minimum" and "equal to the minimum" must be
+        # decided exactly, not up to a tolerance
+        vals = st.builds(lambda v, k: v * (1.0 + k * 1e-6), st.sampled_from([0.5, 1.0, 1.5, 2.0, 3.0, 100.0]),
+                         st.integers(-4, 4))
+    else:
+        # all entries far below any absolute tolerance
+        vals = st.one_of(st.integers(0, 12).map(lambda k: k * 2.5e-10), st.floats(0.0, 1e-8, allow_nan=False))
     if allow_inf:
         vals = st.one_of(vals, vals, vals, vals, st.just(inf))
     M = [[inf] * n for _ in range(n)]
